@@ -68,10 +68,10 @@ theorem any_congr_mem {α : Type} (p q : α → Bool) : ∀ xs : List α, (∀ x
 
 theorem propagate_impl_eq_spec (L : Dataset) (j : Join) (R : Dataset) (mR : List Bool) (v : View)
     (h : joinOk L j R = true) :
-    propagate Impl.joinMask L j R mR v = propagate Spec.joinMask L j R mR v := by
+    propagate Impl.joinMask L j R mR v = propagate Np.joinMask L j R mR v := by
   unfold propagate
   rw [implJoinMask_eq_jmOf]
-  unfold Spec.joinMask jmOf
+  unfold Np.joinMask jmOf
   split
   · congr 1
     apply List.map_congr_left
@@ -111,9 +111,85 @@ theorem worldOk_arity (w : World) (hw : worldOk w = true) (L : Dataset) (hL : L 
     exact this.1
 
 theorem getMask_impl_eq_spec (w : World) (hw : worldOk w = true) (fuel d : Nat) (G : List Nat) (v : View) :
-    getMask Impl.joinMask w fuel d G v = getMask Spec.joinMask w fuel d G v :=
+    getMask Impl.joinMask w fuel d G v = getMask Np.joinMask w fuel d G v :=
   getMask_congr_jm _ _ w
     (fun L hL j hj R hR mR v => propagate_impl_eq_spec L j R mR v (worldOk_joinOk w hw L hL j hj R hR))
+    fuel d G v
+
+/-! ### numpy's promoted comparison is exact comparison when every promotion is value-preserving -/
+
+theorem all_congr_mem {α : Type} (p q : α → Bool) : ∀ xs : List α, (∀ x ∈ xs, p x = q x) → xs.all p = xs.all q
+  | [], _ => rfl
+  | x :: xs, h => by
+    simp only [List.all_cons]
+    rw [h x (by simp), all_congr_mem p q xs (fun y hy => h y (List.mem_cons_of_mem _ hy))]
+
+theorem veqX_eq_veq (a b : Key) (h : exactPair a b = true) : veqX a b = veq a b := by
+  simp [veqX, h]
+
+theorem veqXO_eq_veqO (a b : Option Key) (h : exactPairO a b = true) : veqXO a b = veqO a b := by
+  cases a with
+  | none => rfl
+  | some a =>
+    cases b with
+    | none => rfl
+    | some b => exact veqX_eq_veq a b h
+
+/-- Exact equality implies numpy equality: promotion can only *add* matches. -/
+theorem veq_of_veqX (a b : Key) (h : veqX a b = true) : veq a b = true := by
+  simp only [veqX, Bool.and_eq_true] at h
+  exact h.1
+
+theorem npRowMatch_eq_spec (n1 n2 : Nat) (l r : List Key) (h : exactRows n1 n2 l r = true) :
+    Np.rowMatch n1 n2 l r = Spec.rowMatch n1 n2 l r := by
+  unfold Np.rowMatch Spec.rowMatch
+  unfold exactRows at h
+  by_cases h11 : n1 = 1 ∧ n2 = 1
+  · simp only [h11, and_self, if_true] at h ⊢
+    exact (veqXO_eq_veqO _ _ h).symm
+  · simp only [h11, if_false] at h ⊢
+    by_cases hnn : n1 = n2
+    · simp only [hnn, if_true] at h ⊢
+      rw [List.all_eq_true] at h
+      exact all_congr_mem _ _ _ (fun p hp => (veqX_eq_veq _ _ (h p hp)).symm)
+    · simp only [hnn, if_false] at h ⊢
+      by_cases h1 : n1 = 1
+      · simp only [h1, if_true] at h ⊢
+        rw [List.all_eq_true] at h
+        exact any_congr_mem _ _ _ (fun b hb => (veqXO_eq_veqO _ _ (h b hb)).symm)
+      · simp only [h1, if_false] at h ⊢
+        rw [List.all_eq_true] at h
+        exact any_congr_mem _ _ _ (fun a ha => (veqXO_eq_veqO _ _ (h a ha)).symm)
+
+theorem propagate_np_eq_spec (L : Dataset) (j : Join) (R : Dataset) (mR : List Bool) (v : View)
+    (h : exactJoin L j R = true) :
+    propagate Np.joinMask L j R mR v = propagate Spec.joinMask L j R mR v := by
+  unfold propagate Np.joinMask Spec.joinMask jmOf
+  split
+  · congr 1
+    apply List.map_congr_left
+    intro l hl
+    apply any_congr_mem
+    intro r hr
+    obtain ⟨lrow, hlrow, rfl⟩ := List.mem_map.mp hl
+    obtain ⟨rrow, hrrow, rfl⟩ := List.mem_map.mp hr
+    have hlm := mem_applyView v L.rows lrow hlrow
+    have hrm := mem_select R.rows mR rrow hrrow
+    simp only [exactJoin, List.all_eq_true] at h
+    exact npRowMatch_eq_spec _ _ _ _ (h lrow hlm rrow hrm)
+  · rfl
+
+theorem exactOk_exactJoin (w : World) (hx : exactOk w = true) (L : Dataset) (hL : L ∈ w) (j : Join)
+    (hj : j ∈ L.joins) (R : Dataset) (hR : w[j.other]? = some R) : exactJoin L j R = true := by
+  simp only [exactOk, List.all_eq_true] at hx
+  have := hx L hL j hj
+  rw [hR] at this
+  exact this
+
+theorem getMask_np_eq_spec (w : World) (hx : exactOk w = true) (fuel d : Nat) (G : List Nat) (v : View) :
+    getMask Np.joinMask w fuel d G v = getMask Spec.joinMask w fuel d G v :=
+  getMask_congr_jm _ _ w
+    (fun L hL j hj R hR mR v => propagate_np_eq_spec L j R mR v (exactOk_exactJoin w hx L hL j hj R hR))
     fuel d G v
 
 /-! ### on well-formed worlds every admissible path yields a mask -/
@@ -157,10 +233,10 @@ theorem along_paths_is_mask (f : Nat → Nat → List Key → List Key → Bool)
 /-- **The model's output satisfies the oracle**: on a well-formed world, what `get_mask` computes
 (the coded shapes, the byte path, the `_recursing` DFS) is accepted by `specOk` — the by-value
 propagation along an admissible join path, or `incompatible` when there is none. -/
-theorem specOk_impl (w : World) (d : Nat) (v : View) (hw : worldOk w = true) :
+theorem specOk_impl (w : World) (d : Nat) (v : View) (hw : worldOk w = true) (hx : exactOk w = true) :
     specOk w d v (Impl.getMask w d v) = true := by
   unfold Impl.getMask
-  rw [getMask_impl_eq_spec w hw]
+  rw [getMask_impl_eq_spec w hw, getMask_np_eq_spec w hx]
   have hfirst := getMask_eq_first Spec.joinMask (jmOf_good _) w (w.length + 1) d [] v (by simp)
     (by have := unflagged_le w []; omega)
   rw [hfirst]
@@ -203,12 +279,12 @@ theorem propagate_impl_iff (L : Dataset) (j : Join) (R : Dataset) (mR : List Boo
     ∃ m, propagate Impl.joinMask L j R mR none = .mask m ∧ m.length = L.rows.length ∧
       ∀ (i : Nat) (lrow : List Cell), L.rows[i]? = some lrow →
         (m[i]? = some true ↔ ∃ (r : Nat) (rrow : List Cell), R.rows[r]? = some rrow ∧ mR[r]? = some true ∧
-          Spec.rowMatch j.own.length j.oth.length (rowKeys L.dts j.own lrow) (rowKeys R.dts j.oth rrow) = true) := by
+          Np.rowMatch j.own.length j.oth.length (rowKeys L.dts j.own lrow) (rowKeys R.dts j.oth rrow) = true) := by
   rw [propagate_impl_eq_spec L j R mR none hok]
   have har : arityOk j.own.length j.oth.length = true := by
     simp only [joinOk, Bool.and_eq_true] at hok
     exact hok.1
-  exact propagate_jmOf_iff Spec.rowMatch L j R mR har
+  exact propagate_jmOf_iff Np.rowMatch L j R mR har
 
 theorem rowKeys_single (dts : List DType) (row : List Cell) (c : Nat) :
     (rowKeys dts [c] row)[0]? = keyOf dts row c := by
